@@ -3,6 +3,7 @@ package props
 import (
 	"fmt"
 	"math"
+	"reflect"
 
 	"gorgonia.org/tensor"
 	"verifharness/ref"
@@ -303,6 +304,126 @@ func c17Extra() []c17inst {
 				return resOf(tensor.Sum(mkT([]int{3, 2}), 0))
 			}, generic: func() []float64 { return []float64{fold([]int{0, 2, 4}), fold([]int{1, 3, 5})} }, dts: []ref.DT{d}},
 		)
+	}
+	// ---- order by VALUE, not by a difference: operands 2^62 apart and more (their difference does not fit a signed 64-bit
+	// type; all of them are exactly representable in float32, float64, int and int64, and the results of min/max/arg and
+	// of the comparisons are among the operands or are booleans)
+	{
+		big := float64(uint64(1) << 62)
+		xs := []float64{big, -big, 0, -big, big, 1}
+		ys := []float64{-big, big, big, 0, 1, -big}
+		wide := []ref.DT{ref.Int, ref.Int64, ref.Float32, ref.Float64}
+		conv := func(d ref.DT, f float64) interface{} {
+			return reflect.ValueOf(f).Convert(d.D.Type).Interface()
+		}
+		mk := func(d ref.DT, fs []float64, shape []int) *tensor.Dense {
+			v := make([]interface{}, len(fs))
+			for i, f := range fs {
+				v[i] = conv(d, f)
+			}
+			return mkContig(d, shape, v)
+		}
+		b2f := func(b bool) float64 {
+			if b {
+				return 1
+			}
+			return 0
+		}
+		type bop struct {
+			name string
+			fn   func(a, b interface{}, opts ...tensor.FuncOpt) (tensor.Tensor, error)
+			g    func(x, y float64) float64
+		}
+		for _, o := range []bop{
+			{"MinBetween", tensor.MinBetween, math.Min}, {"MaxBetween", tensor.MaxBetween, math.Max},
+			{"Lt", tensor.Lt, func(x, y float64) float64 { return b2f(x < y) }}, {"Gte", tensor.Gte, func(x, y float64) float64 { return b2f(x >= y) }},
+			{"Gt", tensor.Gt, func(x, y float64) float64 { return b2f(x > y) }}, {"Lte", tensor.Lte, func(x, y float64) float64 { return b2f(x <= y) }},
+		} {
+			o := o
+			for _, shape := range [][]int{{6}, {2, 3}} {
+				shape := shape
+				gen := func() []float64 {
+					r := make([]float64, len(xs))
+					for i := range xs {
+						r[i] = o.g(xs[i], ys[i])
+					}
+					return r
+				}
+				out = append(out,
+					c17inst{family: "wide-order", op: o.name, variant: "TT" + shapeStr(shape), run: func(d ref.DT) ([]interface{}, bool, string) {
+						return resOf(o.fn(mk(d, xs, shape), mk(d, ys, shape)))
+					}, generic: gen, dts: wide},
+					c17inst{family: "wide-order", op: o.name, variant: "TT-same" + shapeStr(shape), run: func(d ref.DT) ([]interface{}, bool, string) {
+						return resOf(o.fn(mk(d, xs, shape), mk(d, ys, shape), tensor.AsSameType()))
+					}, generic: gen, dts: wide},
+					c17inst{family: "wide-order", op: o.name, variant: "TS" + shapeStr(shape), run: func(d ref.DT) ([]interface{}, bool, string) {
+						return resOf(o.fn(mk(d, xs, shape), conv(d, -big)))
+					}, generic: func() []float64 {
+						r := make([]float64, len(xs))
+						for i := range xs {
+							r[i] = o.g(xs[i], -big)
+						}
+						return r
+					}, dts: wide},
+					c17inst{family: "wide-order", op: o.name, variant: "ST" + shapeStr(shape), run: func(d ref.DT) ([]interface{}, bool, string) {
+						return resOf(o.fn(conv(d, big), mk(d, ys, shape)))
+					}, generic: func() []float64 {
+						r := make([]float64, len(ys))
+						for i := range ys {
+							r[i] = o.g(big, ys[i])
+						}
+						return r
+					}, dts: wide})
+			}
+		}
+		// reductions and arg-reductions of the (2,3) arrangement [big -big 0; -big big 1]
+		fold := func(idx []int, f func(x, y float64) float64) float64 {
+			acc := xs[idx[0]]
+			for _, i := range idx[1:] {
+				acc = f(acc, xs[i])
+			}
+			return acc
+		}
+		for _, m := range []struct {
+			name string
+			f    func(x, y float64) float64
+			red  func(t *tensor.Dense, ax ...int) (*tensor.Dense, error)
+		}{
+			{"Min", math.Min, func(t *tensor.Dense, ax ...int) (*tensor.Dense, error) { return t.Min(ax...) }},
+			{"Max", math.Max, func(t *tensor.Dense, ax ...int) (*tensor.Dense, error) { return t.Max(ax...) }},
+		} {
+			m := m
+			out = append(out,
+				c17inst{family: "wide-order", op: m.name, variant: "axis0", run: func(d ref.DT) ([]interface{}, bool, string) {
+					return resOfD(m.red(mk(d, xs, []int{2, 3}), 0))
+				}, generic: func() []float64 {
+					return []float64{fold([]int{0, 3}, m.f), fold([]int{1, 4}, m.f), fold([]int{2, 5}, m.f)}
+				}, dts: wide},
+				c17inst{family: "wide-order", op: m.name, variant: "axis1", run: func(d ref.DT) ([]interface{}, bool, string) {
+					return resOfD(m.red(mk(d, xs, []int{2, 3}), 1))
+				}, generic: func() []float64 { return []float64{fold([]int{0, 1, 2}, m.f), fold([]int{3, 4, 5}, m.f)} }, dts: wide},
+				c17inst{family: "wide-order", op: m.name, variant: "all", run: func(d ref.DT) ([]interface{}, bool, string) {
+					return resOfD(m.red(mk(d, xs, []int{2, 3})))
+				}, generic: func() []float64 { return []float64{fold([]int{0, 1, 2, 3, 4, 5}, m.f)} }, dts: wide},
+				c17inst{family: "wide-order", op: m.name, variant: "middle(3,2,1)", run: func(d ref.DT) ([]interface{}, bool, string) {
+					return resOfD(m.red(mk(d, xs, []int{3, 2, 1}), 1))
+				}, generic: func() []float64 {
+					return []float64{fold([]int{0, 1}, m.f), fold([]int{2, 3}, m.f), fold([]int{4, 5}, m.f)}
+				}, dts: wide})
+		}
+		out = append(out,
+			c17inst{family: "wide-order", op: "Argmax", variant: "axis1", run: func(d ref.DT) ([]interface{}, bool, string) {
+				return resOf(tensor.Argmax(mk(d, xs, []int{2, 3}), 1))
+			}, generic: func() []float64 { return []float64{0, 1} }, dts: wide},
+			c17inst{family: "wide-order", op: "Argmin", variant: "axis1", run: func(d ref.DT) ([]interface{}, bool, string) {
+				return resOf(tensor.Argmin(mk(d, xs, []int{2, 3}), 1))
+			}, generic: func() []float64 { return []float64{1, 0} }, dts: wide},
+			c17inst{family: "wide-order", op: "Argmin", variant: "axis0", run: func(d ref.DT) ([]interface{}, bool, string) {
+				return resOf(tensor.Argmin(mk(d, xs, []int{2, 3}), 0))
+			}, generic: func() []float64 { return []float64{1, 0, 0} }, dts: wide},
+			c17inst{family: "wide-order", op: "Argmax", variant: "all", run: func(d ref.DT) ([]interface{}, bool, string) {
+				return resOf(tensor.Argmax(mk(d, xs, []int{2, 3}), tensor.AllAxes))
+			}, generic: func() []float64 { return []float64{0} }, dts: wide})
 	}
 	// ---- MaskFromSlice: one loop per slice element type (non-zero elements are masked)
 	mks := []int{0, 1, 0, 2, 0, 3}
